@@ -6,6 +6,7 @@ mod gen;
 mod imp;
 mod props;
 mod rng;
+mod vals;
 
 use std::collections::{BTreeMap, BTreeSet};
 use std::io::{BufRead, BufReader};
